@@ -74,6 +74,8 @@ CHECKS = {
    note='Buffer size 3 (quick) / 6 (thorough) through the guarded hook CMACIONIZE_VERIF_PHOTONBUFFER_SIZE; traversal/re-emission/premature-launch task bodies (H2,H3,H5) not built; composition with the C08 primitives is a paper argument.', ref='DESIGN.md section 5 C01 / 8.2'),
 }
 NA = {
+ 'C15': 'not applicable to this technique: the incremental Delaunay / plane-cutting Voronoi constructions are pointer-rich, heap-growing algorithms whose loop counts grow with the generator count and whose correctness statement is geometric (volumes, matching faces); neither cbmc (heap growth) nor a term-level abstraction can encode a tessellation invariant within reach. The only solver-tractable ingredient, the exact predicates, is C17. See DESIGN.md section 5 C15.',
+ 'C20': 'not applicable to this technique: YAMLDictionary/ParameterFile are std::map<std::string,std::string> + iostream parsing, UnitConverter dispatches on std::string, snapshots go through libhdf5; their callees have no IR and no faithful small model, so a solver run would verify a hand-written model of string/map/stream, not the code. See DESIGN.md section 5 C20.',
 }
 PENDING = 'check not built yet in this round (planned, see DESIGN.md section 5)'
 ALL = ['C%02d' % i for i in range(1, 21)]
